@@ -26,7 +26,7 @@ DEFAULT_PROFILE = dict(
     subscript_whole_array_results=True, raise_=True, nested_calls=True,
     persistent_arrays=True, name_pool="plain", zero_trip=True, negative_consts=True,
     dead_code=True, cond_in_call_args=True, bare_power=True, ne_operator=True,
-    pow_of_pow=True, loop_bound_vars=True, fresh_names=False, lookups=False, complex_vars=False, assign_all_state=False, time_advance=True, force_phases=None, extra_kinds=(), zero_arg_calls=True, builtin_set=None, yield_uvec_only=False, matmul_only=False, yield_call_free=False, minmax_loop_counter=True, builtin_kwargs=True, uvfn_boost=False, kw_reverse=True, triangular=True, recall=True, int_reassign=True,
+    pow_of_pow=True, loop_bound_vars=True, fresh_names=False, lookups=False, complex_vars=False, assign_all_state=False, time_advance=True, force_phases=None, extra_kinds=(), zero_arg_calls=True, builtin_set=None, yield_uvec_only=False, matmul_only=False, yield_call_free=False, minmax_loop_counter=True, builtin_kwargs=True, uvfn_boost=False, kw_reverse=True, triangular=True, recall=True, int_reassign=True, acc_loops=True,
     real_temps=None, uvec_temps=None, arr_temps=None, flag_temps=None, int_temps=None,
 )
 
@@ -879,6 +879,22 @@ class Gen:
             ops.append(loop)
         return ops
 
+    def op_acc_loop(self):
+        """x <- x + c under a counted loop whose counter is not mentioned (only the trip count matters)."""
+        if not (self.p["loops"] and self.p["acc_loops"]):
+            return []
+        reals = [n for n in self.names_of(REAL) if n not in ("<t>", "<dt>")]
+        if not reals:
+            return []
+        x = self.choice(reals)
+        lv, lo, hi, hdr = self.loop_for(4)
+        step = self.real_leaf()
+        if step == V(x):
+            step = C(2)
+        self.features.add("loop")
+        self.features.add("acc_loop")
+        return [["assign", x, None, normal(["sum", V(x), step]), [hdr]]]
+
     def op_recall(self):
         """The same call, spelled identically, before and after one of its operands changes."""
         if not (self.p["calls"] and self.p["recall"]):
@@ -966,8 +982,12 @@ class Gen:
                 kinds += ["recall"]
             if self.p["triangular"] and self.p["arrays"] and self.p["loops"]:
                 kinds += ["tri"]
+            if self.p["acc_loops"] and self.p["loops"]:
+                kinds += ["accloop"]
             k = self.choice(kinds)
-            if k == "recall":
+            if k == "accloop":
+                new = self.op_acc_loop()
+            elif k == "recall":
                 new = self.op_recall()
             elif k == "tri":
                 new = self.op_triangular(depth)
